@@ -76,7 +76,7 @@ def is_probe_decl(chunk, mapped=()):
 
 
 def run_case(a):
-    cli, table, types, mode, defined = a
+    cli, table, types, mode, defined = a[:5]
     files = build(types, defined)
     ga = proj.generate(cli, files, mode=mode, config={"type_mappings": table}, tag="c18a")
     gb = proj.generate(cli, files, mode=mode, tag="c18b")
@@ -152,6 +152,28 @@ def run_case(a):
                       viol.append(("C18 retargeted-table-not-applied-on-rerun %s %s" % (mode, site),
                                    "table %s replaced by %s, non-forced re-run (stdout tail %r): `%s` at the %s site still reads %s" % (
                                        table, table2, gc.run.out.strip().splitlines()[-1][:50] if gc.run.out.strip() else "", rg.rust(tmap[i]), site, sh.show(got) if got else "<nothing>"), i))
+        # (5) the build-script entry path reads the same table from tauri.conf.json: the mapped names must be as absent there
+        drv = a[5] if len(a) > 5 else None
+        if drv and "<" not in "".join(table):
+            import os
+            broot = common.scratch("c18b")
+            try:
+                common.write_tree(os.path.join(broot, "src-tauri"), files)
+                proj.write_tauri_conf(broot, "src-tauri", "gen", mode, {"typeMappings": table})
+                rb, _ = proj.build_generate(drv, broot)
+                if rb.rc == 0 and not rb.timed_out:
+                    bo = common.read_outputs(os.path.join(broot, "gen"))
+                    for f, text in bo.items():
+                        if not f.endswith(".ts"):
+                            continue
+                        left = id_tokens(text) & forbidden
+                        if left:
+                            viol.append(("C18 mapped-name-still-present file=%s mode=%s entry=build-script%s" % (f, mode, " (name also defined in the project)" if defined else ""),
+                                         "generate_at_build_time: %s still mentions %s although mapped by %s" % (f, sorted(left), table), None))
+                    if "types.ts" in bo and "types.ts" in oa.texts and decl_multiset(common.strip_ts(bo["types.ts"])) != decl_multiset(common.strip_ts(oa.texts["types.ts"])):
+                        viol.append(("C18 build-script-output-differs-from-cli mode=%s" % mode, "types.ts written by generate_at_build_time differs from the CLI's for the same table %s" % table, None))
+            finally:
+                common.rmtree(broot)
         return {"viol": viol, "ok": ok, "n": len(obs), "files": files}
     finally:
         ga.cleanup()
@@ -200,6 +222,7 @@ def run_exotic_case(a):
 def run(tier):
     v = Verdict("C18", "exploration", tier)
     cli = common.build_cli()
+    drv = common.build_driver()
     rnd = random.Random(common.seed())
     jobs = []
     tables = []
@@ -234,13 +257,15 @@ def run(tier):
         ets = list(enumerate(uniq))
         simple = tuple(n for n in table if "<" not in n)
         for mode in ("none", "zod"):
-            jobs.append((cli, table, ets, mode, ()))
+            jobs.append((cli, table, ets, mode, (), drv if len(jobs) % 3 == 0 else None))
             # the same table over a project that itself defines the mapped names (every second table in the quick tier)
             if simple and (tier == "thorough" or len(jobs) % 4 == 1):
-                jobs.append((cli, table, ets, mode, simple))
+                jobs.append((cli, table, ets, mode, simple, drv))
     res = common.pmap(run_case, jobs, chunksize=1)
     for (job, r) in zip(jobs, res):
-        _, table, ets, mode, defined = job
+        _, table, ets, mode, defined = job[:5]
+        if len(job) > 5 and job[5]:
+            v.count("tables_also_run_through_the_build_script_path")
         if "inconclusive" in r:
             v.inconclusive.append("watchdog")
             continue
